@@ -116,7 +116,7 @@ def make_contest(kind, style, audit_type, cards):
                               "estim": NonnegMean.fixed_alternative_mean, "use_style": style, "g": 0.1})
 
 
-def build_cards(kind, cards, rng):
+def build_cards(kind, cards, rng, snum=lambda k: k + 1):
     """CVR and MVR objects for a list of abstract cards (positions are sample-number ranks)"""
     import numpy as np
     from shangrla.core.Audit import CVR
@@ -131,7 +131,7 @@ def build_cards(kind, cards, rng):
         cvrs.append(CVR(id=f"card{k}", votes=votes, phantom=(rng.choice([True, np.bool_(True), 1]) if c["ph"] else
                                                              rng.choice([False, False, 0])),
                         tally_pool=(c["pool"] if pooled else rng.choice([None, "Q"])),
-                        pool=(rng.choice([True, np.bool_(True)]) if pooled else False), sample_num=k + 1))
+                        pool=(rng.choice([True, np.bool_(True)]) if pooled else False), sample_num=snum(k)))
         if c["ms"] == "u":      # the flag is not always the literal True (numpy booleans from arrays, 1 from files)
             mvrs.append(CVR(id=f"card{k}", votes={}, phantom=rng.choice([True, True, np.bool_(True), 1])))
         else:
@@ -163,7 +163,10 @@ def run_case(tid, kind, u, style, cards, thr, rng, polling=False):
                                                            else Audit.AUDIT_TYPE.CARD_COMPARISON)
     rec = {"tid": tid, "kind": kind, "u": rs(u), "style": style, "audit": audit_type, "cards": cards, "thr": thr,
            "excs": excs}
-    cvrs, mvrs = build_cards(kind, cards, rng)
+    # sample numbers are small consecutive integers in some cases and 200-bit integers a few units apart in others
+    base, stride = rng.choice([(0, 1), (0, 1), (2 ** 200 + 2 ** 147 + rng.randrange(10 ** 6), rng.choice([1, 5]))])
+    snum = lambda k: base + stride * (k + 1)
+    cvrs, mvrs = build_cards(kind, cards, rng, snum)
     if pooled and not polling and rng.random() < 0.4:
         # ONEAudit padding first: every pooled CVR of a pool lists every contest some CVR of that pool lists
         rec["padded"] = True
@@ -222,7 +225,14 @@ def run_case(tid, kind, u, style, cards, thr, rng, polling=False):
                 Bunf.append("na")
         out["B"], out["Bunf"] = B, Bunf
         # the contest's threshold is the sample number of the card at position thr (0 = before every card)
-        con.sample_threshold = thr
+        n_upto = sum(1 for k in range(thr) if cvrs[k].has_contest("con"))
+        if style and n_upto > 0 and rng.random() < 0.4:
+            # the threshold as the sampling step itself leaves it: the first n_upto cards listing the contest
+            con.sample_size = n_upto
+            guard("consistent_sampling", lambda: core.with_time_limit(10, CVR.consistent_sampling, cvrs, {"con": con}))
+            rec["thr_route"] = "sampling"
+        else:
+            con.sample_threshold = snum(thr - 1) if thr > 0 else 0
     else:
         asn.test = StubTest(len(cards))
         asn.margin = 0.1
